@@ -1083,9 +1083,12 @@ fn main() {
         {
             use rpki_verif::engine::{certref as cr, der};
             let sp = ctx.space("resigned.key_identifiers",
-                "the key identifier inside the SKI resp. AKI extension of a sub-CA, EE and router certificate replaced by every member of {right, right minus last octet, right minus first octet, right + 00, right + right, right + 107 octets, last bit flipped, first bit flipped, empty, other key's} in the primitive and (AKI, SKI) two constructed-string spellings, plus AKI without keyIdentifier; re-signed; oracle: accepted only if the identifier is exactly the right 20 octets (reference reader), and the right one in primitive form is accepted; non-trivial = every spelling");
-            for kind in [Kind::Ca, Kind::Ee, Kind::Router] {
-                let subj = if kind == Kind::Ca { CA2_KEY } else { LEAF_KEY };
+                "the key identifier inside the SKI resp. AKI extension of a sub-CA, EE and router certificate replaced by every member of {right, right minus last octet, right minus first octet, right + 00, right + right, right + 107 octets, last bit flipped, first bit flipped, empty, other key's} in the primitive and (AKI, SKI) two constructed-string spellings, plus AKI without keyIdentifier and the AKI extension removed altogether; the subject's key being a key of its own, the issuer's own key or the trust anchor's key (sub-CA, EE); re-signed; oracle: accepted only if the identifier is exactly the right 20 octets (reference reader), and the right one in primitive form is accepted; non-trivial = every spelling");
+            // the subject's key as a dimension: an ordinary key of its own, the ISSUER's own key (subject key
+            // identifier == issuer's key identifier, the shape of a self-signed certificate) and the trust anchor's key
+            let mut variants: Vec<(Kind, &str, usize)> = vec![(Kind::Ca, "own", CA2_KEY), (Kind::Ee, "own", LEAF_KEY), (Kind::Router, "own", LEAF_KEY)];
+            for kind in [Kind::Ca, Kind::Ee] { variants.push((kind, "issuers", CA_KEY)); variants.push((kind, "trust-anchors", TA_KEY)) }
+            for (kind, subj_label, subj) in variants {
                 let res = match kind { Kind::Router => Res { v4: Claim::Missing, v6: Claim::Missing, asn: Claim::Blocks(vec![(64500, 64500)]) }, _ => sub_res.clone() };
                 let cert = build_cert_der(&signer, &Spec::issued(kind, subj, CA_KEY, signer.ski(CA_KEY), res, Overclaim::Refuse));
                 let tbs = tbs_of(&cert);
@@ -1101,7 +1104,7 @@ fn main() {
                         ("last_bit", { let mut r = right.clone(); r[19] ^= 1; r }), ("first_bit", { let mut r = right.clone(); r[0] ^= 0x80; r }),
                         ("empty", vec![]), ("other_key", other),
                     ];
-                    if which == "aki" { vals.push(("absent", vec![])) }
+                    if which == "aki" { vals.push(("absent", vec![])); vals.push(("extension_removed", vec![])) }
                     for (vname, val) in &vals {
                         for spelling in ["prim", "cons2", "cons_tail"] {
                             let tag_p = if which == "ski" { 0x04u8 } else { 0x80 };
@@ -1110,21 +1113,22 @@ fn main() {
                                 "cons2" => { let h = val.len() / 2; der::tlv(tag_p | 0x20, &[der::octets(&val[..h]), der::octets(&val[h..])].concat()) }
                                 _ => { let h = val.len().min(20); der::tlv(tag_p | 0x20, &[der::octets(&val[..h]), der::octets(&val[h..])].concat()) }
                             };
-                            if *vname == "absent" && spelling != "prim" { continue }
+                            if (*vname == "absent" || *vname == "extension_removed") && spelling != "prim" { continue }
                             let body = if which == "ski" { kid } else if *vname == "absent" { der::seq(&[]) } else { der::seq(&[kid]) };
                             let m = cr::map_extensions(&tbs, &mut |oid, whole| {
-                                if (which == "ski" && oid == cr::OID_SKI) || (which == "aki" && oid == cr::OID_AKI) { vec![cr::extension(oid, false, &body)] } else { vec![whole.to_vec()] }
+                                if (which == "ski" && oid == cr::OID_SKI) || (which == "aki" && oid == cr::OID_AKI) { if *vname == "extension_removed" { vec![] } else { vec![cr::extension(oid, false, &body)] } } else { vec![whole.to_vec()] }
                             });
                             sp.nontrivial(1);
-                            run(&sp, "C01.keyid", kind, &m, *vname == "right" && spelling == "prim", &|strict| format!("kind={} strict={strict} ext={which} value={vname} spelling={spelling}", kind_name(kind)));
+                            // only the ordinary subject key is demanded to be accepted (a certificate for the issuer's own key has the shape of a self-signed one)
+                            run(&sp, "C01.keyid", kind, &m, *vname == "right" && spelling == "prim" && subj_label == "own", &|strict| format!("kind={} subject_key={subj_label} strict={strict} ext={which} value={vname} spelling={spelling}", kind_name(kind)));
                             // the right identifier in DER form is what the seed itself carries: it must be accepted
                             if *vname == "right" && spelling == "prim" && m != tbs { ctx.machinery_error(format!("kind={} ext={which}: rebuilding the extension with its own value changes the TBS", kind_name(kind))) }
                         }
                     }
                 }
-                run(&sp, "C01.keyid.baseline", kind, &tbs, true, &|strict| format!("kind={} strict={strict} unmodified", kind_name(kind)));
+                if subj_label == "own" { run(&sp, "C01.keyid.baseline", kind, &tbs, true, &|strict| format!("kind={} strict={strict} unmodified", kind_name(kind))); }
             }
-            sp.done(true, "10 (AKI: 11) identifier values x 3 spellings x {SKI, AKI} x 3 kinds x 2 decode modes");
+            sp.done(true, "10 (AKI: 12, incl. the extension removed) identifier values x 3 spellings x {SKI, AKI} x 7 (kind, subject key) variants x 2 decode modes");
         }
     }
 
@@ -1195,6 +1199,68 @@ fn main() {
         if again != fresh { ctx.machinery_error("history: fresh-thread observations differ between two runs") }
         sp.sample_str(|| format!("{} operations, {} sequences; e.g. {} -> {}", n, seqs.len(), ops[0].0, fresh[0]));
         sp.done(true, if ctx.tier.is_thorough() { "all ordered pairs and triples of 47 operations" } else { "all ordered pairs of 47 operations" });
+    }
+
+    //---------------------------------------------------------------- history: number of distinct keys
+    {
+        use rpki::crypto::{PublicKey, RpkiSignature, RpkiSignatureAlgorithm};
+        let sp = ctx.space("history.key_scale",
+            "the NUMBER of distinct verification keys a thread has used as a dimension (per-thread key caches have a capacity): on one fresh OS thread a good child of issuer X is validated, then N signature checks with N DISTINCT well-formed RSA public keys (a pool key's modulus with a counter written into its middle), then a good child of another CA P (in the second order: P first, then the N keys), then the subjects {certificate signed by P's key but naming X as issuer and carrying X's key identifier as AKI; good child of X; good child of P}; N = 0..=130, 254..=258, 510..=514 (thorough: also 1022..=1026, 4094..=4098); oracle: the model's verdicts (rejected, accepted, accepted) whatever N; non-trivial = every (N, order, subject)");
+        let ca_res = Res { v4: Claim::Blocks(vec![(0x0a00_0000, 0x0aff_ffff)]), v6: Claim::Missing, asn: Claim::Blocks(vec![(64496, 64511)]) };
+        let leaf_res = Res { v4: Claim::Blocks(vec![(0x0a00_0000, 0x0a00_00ff)]), v6: Claim::Missing, asn: Claim::Missing };
+        let x = valid_ca(&signer, &ta, TA_KEY, CA_KEY, ca_res.clone());
+        let p = valid_ca(&signer, &ta, TA_KEY, OTHER_KEY, ca_res.clone());
+        let child_x = build_cert(&signer, &Spec::issued(Kind::Ee, LEAF_KEY, CA_KEY, signer.ski(CA_KEY), leaf_res.clone(), Overclaim::Refuse));
+        let child_p = build_cert(&signer, &Spec::issued(Kind::Ee, LEAF_KEY, OTHER_KEY, signer.ski(OTHER_KEY), leaf_res.clone(), Overclaim::Refuse));
+        // signed by P's key, names X: AKI = X's SKI, issuer name = X's
+        let forged = { let mut s = Spec::issued(Kind::Ee, LEAF_KEY, CA_KEY, signer.ski(CA_KEY), leaf_res.clone(), Overclaim::Refuse); s.signing_key = OTHER_KEY; build_cert(&signer, &s) };
+        let base_bits = signer.public(CA2_KEY).bits().to_vec();
+        let fabricated = |i: u32| -> Option<PublicKey> {
+            let mut b = base_bits.clone(); let mid = b.len() / 2;
+            for (k, o) in i.to_be_bytes().iter().enumerate() { b[mid + k] ^= *o }
+            b[mid + 4] ^= 0x5a; // never the pool key itself
+            PublicKey::rsa_from_bits_bytes(bytes::Bytes::from(b)).ok()
+        };
+        if fabricated(1).is_none() { ctx.machinery_error("history.key_scale: fabricated public keys are not well-formed") }
+        let mut ns: Vec<u32> = (0..=130).collect(); ns.extend(254..=258); ns.extend(510..=514);
+        if ctx.tier.is_thorough() { ns.extend(1022..=1026); ns.extend(4094..=4098) }
+        let bogus = RpkiSignature::new(RpkiSignatureAlgorithm::default(), bytes::Bytes::from(vec![0x42u8; 256]));
+        let t = time(T0);
+        std::thread::scope(|scope| {
+            for chunk in ns.chunks(16) {
+                let hs: Vec<_> = chunk.iter().flat_map(|&n| [false, true].into_iter().map(move |p_first| (n, p_first))).map(|(n, p_first)| {
+                    let (sp, ctx, x, p, child_x, child_p, forged, fabricated, bogus) = (&sp, &ctx, &x, &p, &child_x, &child_p, &forged, &fabricated, &bogus);
+                    scope.spawn(move || {
+                        let r = guard(|| {
+                            let first = child_x.clone().validate_ee_at(x, true, t).is_ok();
+                            let mut second = true;
+                            if p_first { second = child_p.clone().validate_ee_at(p, true, t).is_ok() }
+                            let mut spurious = 0u32;
+                            for i in 0..n { if let Some(k) = fabricated(i) { if k.verify(b"history.key_scale", bogus).is_ok() { spurious += 1 } } }
+                            if !p_first { second = child_p.clone().validate_ee_at(p, true, t).is_ok() }
+                            (first, second, spurious,
+                             forged.clone().validate_ee_at(x, true, t).is_ok(), child_x.clone().validate_ee_at(x, true, t).is_ok(), child_p.clone().validate_ee_at(p, true, t).is_ok())
+                        });
+                        let wit = |subject: &str| format!("distinct_keys_before={n} order={} subject={subject}", if p_first { "X,P,keys" } else { "X,keys,P" });
+                        sp.evals(3); sp.nontrivial(3);
+                        match r {
+                            Err(e) => ctx.fail("C01.history.key_scale.nopanic", wit("-"), e),
+                            Ok((first, second, spurious, forged_ok, cx, cp)) => {
+                                if !first || !second { ctx.fail("C01.history.key_scale", wit("setup"), format!("the good children validated at the start: under X {first}, under P {second}")) }
+                                if spurious > 0 { ctx.fail("C01.history.key_scale", wit("fabricated keys"), format!("{spurious} arbitrary signatures verified under fabricated keys")) }
+                                if forged_ok { ctx.fail("C01.history.key_scale", wit("signed-by-P-naming-X"), "a certificate signed by another CA's key is accepted under X after the thread has used this many keys") }
+                                if !cx { ctx.fail("C01.history.key_scale", wit("good-child-of-X"), "a correctly issued certificate is rejected under X after the thread has used this many keys") }
+                                if !cp { ctx.fail("C01.history.key_scale", wit("good-child-of-P"), "a correctly issued certificate is rejected under P after the thread has used this many keys") }
+                                sp.outcome(if forged_ok { "forged-accepted" } else { "forged-rejected" }); sp.outcome(if cx && cp { "good-accepted" } else { "good-rejected" });
+                            }
+                        }
+                    })
+                }).collect();
+                for h in hs { let _ = h.join(); }
+            }
+        });
+        sp.sample_str(|| "distinct_keys_before=64 order=X,keys,P subject=signed-by-P-naming-X -> rejected".into());
+        sp.done(true, &format!("{} key counts x 2 orders x 3 subjects, each on its own OS thread", ns.len()));
     }
 
     //---------------------------------------------------------------- environment
